@@ -74,3 +74,13 @@ claim('C10',
       'provenance of the captured raw bytes, wire signature of the replay path, field-set agreement of Eq/Hash/Ord, who-may-construct rule over the whole workspace, conversion tables',
       'Decided from MIR: parse_local_ext rebuilds a decoded pid/port/reference with exactly start[..8 + bytes consumed by the nested term] and the nested identifier\'s own fields; each identifier encoder writes `121 ++ raw bytes` (and nothing else) whenever raw bytes are present; eq, hash and cmp of the three identifier types read the same field set, namely all fields but the raw bytes (same identifier recognised in either form), while the derived Clone carries everything; no library function builds an identifier from the fields of an existing one and the owned<->borrowed conversions clone the identifier whole. The mechanism behind C10 is structural, so these clauses cover it; value equality of the replayed bytes is by construction (the slice is copied verbatim).',
       NOTE, 'DESIGN.md §4 C10')
+
+claim('C11',
+      'finite abstract interpretation of both comparators over enum discriminants (all 17x17 variant pairs), catch-all and mirror-consistency rules on the extracted pair table, Eq=>Hash rule, lossy int->float rule on the comparison path, twin comparison (pair tables and MIR fingerprints of duplicated helpers)',
+      'Decided from MIR for all 289 ordered variant pairs of OwnedTerm::cmp and of BorrowedTerm::cmp: pairs of different rank are decided by the rank alone; every same-rank pair reaches an arm that compares values, except the listed known findings (8 heterogeneous pairs per comparator fall into `_ => Equal`, which breaks transitivity); (A,B) and (B,A) arms are mirrors (opposite constants, or helpers defined as reverse with swapped arguments); floats are not hashed by raw bits without zero normalisation; integer->f64 rounding on the comparison path is reported (known findings); the zero-copy comparator has the same rank table and the same arm per pair, and its nine numeric helpers are MIR-identical to the owned ones. The laws as universally quantified statements over values are not decided.',
+      NOTE, 'DESIGN.md §4 C11')
+
+claim('C12',
+      'rank-table extraction vs spec/term_order.json, shape rules on comparison recipes (big-integer digit order, map keys-before-values, tuple size-first, list elements-first), numeric exactness shared with C11',
+      'Decided from MIR: the variant->rank map of both comparators is order-isomorphic to Erlang\'s number < atom < reference < fun < port < pid < tuple < map < list < bit-string; big-integer magnitudes are compared from the most significant digit; maps compare size, then all keys, then all values; tuples compare size before elements; lists compare elements before length; atoms compare by name. Rounding of integers against floats is reported under C11 clause 4 (known findings). Agreement on values (bit-wise bit-string order, exact float/integer comparison) is not decided.',
+      NOTE, 'DESIGN.md §4 C12')
